@@ -212,6 +212,18 @@ pub(crate) fn libm_hypot(_x: f64, _y: f64) -> f64 {
     kani::assume(r.is_nan() || r >= 0.0);
     r
 }
+// hypot, exact on the axes (IEEE: hypot(x, 0) = |x|), otherwise any value not below the larger leg
+pub(crate) fn libm_hypot_axes(x: f64, y: f64) -> f64 {
+    if y == 0.0 {
+        return x.abs();
+    }
+    if x == 0.0 {
+        return y.abs();
+    }
+    let r: f64 = kani::any();
+    kani::assume(r.is_nan() || (r >= x.abs() && r >= y.abs()));
+    r
+}
 pub(crate) fn libm_any1(_x: f64) -> f64 {
     kani::any()
 }
